@@ -277,3 +277,4 @@ def main(sess):
         c15.fam_calc(sess)
         # scalar functions on ill-typed / out-of-range arguments (driver of C16)
         c16.fam_args(sess)
+        c16.fam_args_all(sess)
